@@ -4,8 +4,8 @@ import json
 from common import impl_error
 
 PROP = "C16"
-MODULES = ["C16"]
-GEN = ["Tms", "Ars"]
+MODULES = ["C16", "C16t"]
+GEN = ["Tms", "Ars", "TranslArs", "TranslTms"]
 MATCHERS = {}
 
 TMS_TYPES = ["SERVICE_AVAILABILITY", "TMS_ACKNOWLEDGEMENT", "SIMPLE_TEXT_MESSAGE"]
@@ -2447,6 +2447,123 @@ def ENTRY_POINTS():
     return eps
 
 
+def run_transl(ctx, ars_enc_pairs, ars_dec_pairs, tms_enc_pairs=(), tms_dec_pairs=(), misc_pairs=()):
+    """Differential validation of the source translator for byte-oriented object codecs (tools/py2lean_obj.py on top of
+    py2lean_bits.py / py2lean.py) and of its preludes (Model/PyObj.lean, PyBits.lean, Py.lean), trusted base of Props/C16t: the
+    definitions TRANSLATED from the source of automatic_registration_service.py (`Gen/TranslArs.lean`, driver operations `t.ars.*`,
+    call boundary instantiated with the model: bitarray frombytes / tobytes, UTF-8 codec = validUtf8) against the real code.
+    `t.ars.enc` / `t.ars.dec` take and print exactly the forms of the hand model's `ars.enc` / `ars.dec`, so EVERY case this run
+    generated for the model (constructed messages in and out of range, serialisations, mutated serialisations, straddling
+    constants, hand-made wire images with ill-formed UTF-8, ...) is also fed to the translated source, with the same expected
+    value computed by the real code; the helpers and headers are exercised one by one (`t.ars.lv / rlv / fh / rrh / rsh / rshinit /
+    len`: None / empty / 255 / 256-octet / multi-byte identifiers, read positions before, inside and past the data, every header
+    octet, empty and 2-octet header strings).  A difference is a translator or prelude bug, never a finding about /repo."""
+    if ctx.search_only or not ctx.driver_ok:
+        return
+    m = A()
+    rng = ctx.rng
+    ARS = m.AutomaticRegistrationService
+    pairs = []
+    cap = ctx.budget(40000, 400000)
+    for src in (ars_enc_pairs, ars_dec_pairs):
+        step = max(1, len(src) // cap)
+        for line, exp in src[::step]:
+            if line.startswith(("ars.enc ", "ars.dec ")):
+                pairs.append(("t." + line, exp))
+    ctx.count("transl:ars.as_bytes/from_bytes", len(pairs))
+    extra = []
+    # __len__ of parsed messages: the decode output has the form of the encode arguments
+    n_len = 0
+    for line, exp in ars_dec_pairs[:: max(1, len(ars_dec_pairs) // ctx.budget(1500, 15000))]:
+        if line.startswith("ars.dec ") and not is_err(exp) and exp != "NONE":
+            q = call(ARS.from_bytes, unhx(line.split()[1]))
+            if not is_err(q):
+                extra.append(("t.ars.len " + exp, str(call(len, q))))
+                n_len += 1
+    strs = [None, "", "a", "\u00e9", "\u20ac", "\U0001f600", "\x00", "x" * 255, "x" * 256, "\u00e9" * 127, "\u00e9" * 128,
+            "\ufeff2001", "\r\n", "\x10\u0080"]
+    for _ in range(ctx.budget(200, 2000)):
+        k = rng.choice((1, 2, 3, 10, 100, 254, 255, 256, 300))
+        strs.append("".join(rng.choice("az09 \u00e9\u00df\u20ac\u4e2d\U0001f600\x00\x7f") for _ in range(k)))
+    for t in strs:
+        arg = "N" if t is None else hx(t.encode("utf-8"))
+        extra.append(("t.ars.lv " + arg, call(lambda: hx(ARS.encode_len_val(t)))))
+        if t is not None:   # the prelude's len(str) on the UTF-8 carrier
+            extra.append(("t.ars.prim.strlen " + hx(t.encode("utf-8")), str(len(t))))
+        if t is not None:   # the bytes form of the Union parameter
+            tb = t.encode("utf-8")[::-1]
+            extra.append(("t.ars.lvb " + hx(tb), call(lambda: hx(ARS.encode_len_val(tb)))))
+    for _ in range(ctx.budget(600, 6000)):
+        d = bytes(rng.choice((0, 1, 2, 3, 5, 255, rng.randrange(256))) for _ in range(rng.choice((0, 1, 2, 3, 6, 12))))
+        i = rng.randrange(-len(d) - 2, len(d) + 3)
+        extra.append((f"t.ars.rlv {hx(d)} {i}", call(lambda: (lambda r: f"{r[0]} {hx(r[1])}")(ARS.read_len_val(d, i)))))
+
+    def fh(o):
+        return "%d %d %d %d %d" % (o.has_more_headers, o.is_acknowledged, o.is_priority, o.is_control_message,
+                                   ARS_TYPES.index(o.pdu_type.name))
+
+    def rrh(o):
+        return "%d.%d" % (ARS_EVENTS.index(o.event.name), 0 if o.encoding == m.Encoding.UTF8 else 99)
+
+    def rsh(o):
+        return "%s.%s.%s" % ("-" if o.failure_reason is None else ARS_FAILS.index(o.failure_reason.name),
+                             "-" if o.refresh_time is None else o.refresh_time,
+                             "-" if o.first_header is None else int(bool(o.first_header.is_acknowledged)))
+
+    def hdr(cls, show, d):
+        o = call(cls.from_bytes, d)
+        if is_err(o):
+            return o
+        b = call(o.as_bytes)
+        return show(o) + " " + (b if is_err(b) else hx(b)) + " " + str(call(len, o))
+
+    octets = [bytes([v]) for v in range(256)] + [b"", b"\x00\xff", b"\xff\x00", b"\xf0\x01\x02"]
+    for d in octets:
+        extra.append(("t.ars.fh " + hx(d), hdr(m.FirstHeader, fh, d)))
+        extra.append(("t.ars.rrh " + hx(d), hdr(m.RegistrationRequestHeader, rrh, d)))
+        extra.append(("t.ars.rsh " + hx(d), hdr(m.ResponseSecondHeader, rsh, d)))
+    for f in (None, 0, 1, 2, 3):
+        for r in (None, -1, 0, 1, 5, 127, 128, 255, 256):
+            fr = None if f is None else getattr(m.FailureReason, ARS_FAILS[f])
+            extra.append((f"t.ars.rshinit {'-' if f is None else fr.value} {'-' if r is None else r}",
+                          call(lambda: rsh(m.ResponseSecondHeader(failure_reason=fr, refresh_time=r)))))
+    ctx.count("transl:ars.helpers+headers", len(extra))
+    ctx.count("transl:ars.__len__", n_len)
+    # TMS (`Gen/TranslTms.lean`, operations `t.tms.*`): again every case generated for the hand model (tms.enc / tms.dec / tms.hdr /
+    # tms.sn / tms.unsn lines, same expected values), plus read positions below zero and the availability header on every octet
+    tm = T()
+    tpairs = []
+    for src in (list(tms_enc_pairs), list(tms_dec_pairs)):
+        step = max(1, len(src) // cap)
+        for line, exp in src[::step]:
+            if line.startswith(("tms.enc ", "tms.dec ")):
+                tpairs.append(("t." + line, exp))
+    for line, exp in misc_pairs:
+        if line.startswith(("tms.hdr ", "tms.sn ", "tms.unsn ")):
+            tpairs.append(("t." + line, exp))
+    ctx.count("transl:tms.as_bytes/from_bytes/sn/hdr", len(tpairs))
+    textra = []
+
+    def unsn(d, i):
+        r = tm.TextMessagingService.decode_sn_and_encoding(d, i)
+        return "%d %d %s" % (r[0], r[1], "-" if r[2] is None else ["UNDEFINED", "UCS2_LE"].index(r[2].name))
+
+    for _ in range(ctx.budget(600, 6000)):
+        d = bytes(rng.choice((0, 0x1F, 0x80, 0x84, 0x9F, 0xE4, 0xFF, rng.randrange(256))) for _ in range(rng.choice((0, 1, 2, 3, 5))))
+        i = rng.randrange(-len(d) - 2, len(d) + 3)
+        textra.append((f"t.tms.unsn {hx(d)} {i}", call(unsn, d, i)))
+
+    def cap_show(d):
+        o = tm.AvailabilitySecondHeader.from_bytes(d)
+        b = call(o.as_bytes)
+        return "%d %s" % (o.capability.value, b if is_err(b) else hx(b))
+
+    for d in octets:
+        textra.append(("t.tms.cap " + hx(d), call(cap_show, d)))
+    ctx.count("transl:tms.helpers", len(textra))
+    ctx.correspond("transl", pairs + extra + tpairs + textra)
+
+
 def run(ctx):
     ctx.rule = (
         "messages are built from fields with the library's constructors: TMS = type (3) x flags has_more/ack/reserved x "
@@ -2509,6 +2626,10 @@ def run(ctx):
         "hand-written models Model/Tms.lean, Model/Ars.lean tied to text_messaging_service.py / automatic_registration_service.py by this run's correspondence",
         "Python's UTF-8 and UTF-16-LE codecs (identifiers and texts are opaque byte strings in the model; validUtf8 is compared with CPython's decoder on every run)",
         "bitarray (int2ba/ba2int/frombytes/tobytes) as the substrate of the header codecs",
+        "source translator tools/py2lean_obj.py (on top of tools/py2lean_bits.py, tools/py2lean.py; plug-in tools/extract_transl_obj.py) and its preludes "
+        "lean/DmrVerif/Model/PyObj.lean, PyBits.lean, Py.lean; the call boundary of Gen/TranslArs.lean (bytes_to_bits / bits_to_bytes, str.encode / "
+        "bytes.decode for utf-8) instantiated with the model in Model/TranslArsExt.lean; validated on every run by the differential operations t.ars.* "
+        "(run_transl); Props/C16t proves the translated definitions equal to Model/Ars for all inputs",
     ]
     ctx.assumptions += [
         'default endian="big" of from_bytes/as_bytes',
@@ -2569,6 +2690,7 @@ def run(ctx):
         ctx.correspond("ars.as_bytes", ae)
         ctx.correspond("ars.from_bytes", ad)
         ctx.correspond("headers/sn/utf8", misc)
+    run_transl(ctx, ae, ad, te, td, misc)
 
 
 def replay(obj):
